@@ -464,7 +464,16 @@ def history_stream(ctx, drv, n_hist):
             cid = 11 + ci
             g = sc.Gen(rng.fork(100 + ci), {"rng_in_container": True, "fallback_in_container": True})
             recipe = g.root(rng.weighted([(1, 3), (2, 2)]))
-            obj = builder.build(recipe)
+            # save, (fail,) save AGAIN: about a third of the calls re-save the object of the previous call — the same
+            # Python object, after one more attribute was set on it (state kept on the object between calls is exposed)
+            if ci > 0 and rng.chance(0.35):
+                recipe = ["obj", prev_recipe[1], prev_recipe[2] + [[f"again{ci}", ["scalar", sc.S(ci)]]]]
+                obj = prev_obj
+                setattr(obj, f"again{ci}", ci)
+                ctx.dist["history_resave_same_object"] += 1
+            else:
+                obj = builder.build(recipe)
+            prev_obj, prev_recipe = obj, recipe
             specs[cid] = sc.observe(obj)
             mode = rng.choice(["o", "o", "w"])
             # dry run in a throw-away sandbox: number of primitives of this call from the current state
